@@ -1959,6 +1959,10 @@ func (self *LockDB) doExpried(lock *Lock, forcedExpried bool, removeWaited bool)
 }
 
 func (self *LockDB) AddMillisecondExpried(lock *Lock) {
+	if lock.command.ExpriedFlag&protocol.EXPRIED_FLAG_UNLIMITED_EXPRIED_TIME != 0 {
+		self.AddExpried(lock)
+		return
+	}
 	lock.expried = false
 	ms := time.Now().UnixNano()/1e6 + int64(lock.command.Expried%MILLISECOND_QUEUE_LENGTH)
 
